@@ -173,7 +173,8 @@ def finite_differences(ctx: Ctx) -> None:
                                     flat[i] = old
                                     fd = (up - dn) / (2 * h)
                                     ad = 0.0 if gp is None else gp.view(-1)[i].item()
-                                    worst = max(worst, abs(fd - ad) / (1e-4 + abs(fd) + abs(ad)))
+                                    e_ = abs(fd - ad) / (1e-4 + abs(fd) + abs(ad))
+                                    worst = max(worst, e_ if math.isfinite(e_) else float("inf"))     # (NaN compares false with everything)
                         if worst > 2e-4:
                             ctx.violation(f"fd:{cname}:{'stepwise' if 'prev_hedge' in feats else 'batched'}:{mode}", "back-propagated gradient differs from central finite differences on the same paths",
                                           {"criterion": cname, "feats": feats, "cost": cost, "module_mode": mode, "H": H, "relative_error": worst})
@@ -199,6 +200,8 @@ def _fd_compare(ctx: Ctx, key: str, what: str, loss_fn, params, detail) -> None:
                 fd = (up - dn) / (2 * h)
                 ad = 0.0 if gp is None else gp.view(-1)[i].item()
                 err = abs(fd - ad) / (1e-4 + abs(fd) + abs(ad))
+                if not math.isfinite(err):               # a NaN / infinite gradient is not the derivative of a finite loss
+                    err = float("inf")
                 if err > worst:
                     worst, where = err, {"parameter": pi, "index": i, "finite_difference": fd, "autograd": ad}
     if worst > 2e-4:
@@ -247,6 +250,47 @@ def trainable_parts_outside_the_model(ctx: Ctx) -> None:
             c = self.lin(x[..., :2])
             centre, width = torch.sigmoid(c[..., [0]]), torch.nn.functional.softplus(c[..., [1]]) * 0.05
             return self.clamp(prev, centre - width, centre + width)
+
+    # (iii) a built-in Black-Scholes model fed by a TRAINABLE volatility feature (a calibrated volatility surface in front of the
+    # closed-form delta), evaluated for all steps at once and step by step
+    from pfhedge.nn import BlackScholes, WhalleyWilmott
+
+    class VolSurface(torch.nn.Module):
+        def __init__(self):
+            super().__init__()
+            self.level = torch.nn.Parameter(torch.tensor(0.2, dtype=DT))
+            self.skew = torch.nn.Parameter(torch.tensor(-0.05, dtype=DT))
+
+        def forward(self, x):
+            return torch.nn.functional.softplus(self.level + self.skew * x[..., :1] + 0.1 * x[..., 1:2])
+
+    torch.manual_seed(ctx.seed + 34)
+    # (BlackScholes of a lookback option is not among them: its delta is itself an automatic derivative, returned without a graph)
+    for dcls, mk in ((EuropeanOption, BlackScholes), (EuropeanOption, WhalleyWilmott)):
+        for stepwise in (False, True):
+            stock = BrownianStock(cost=1e-2, dt=1 / 20, dtype=DT)
+            deriv = dcls(stock, maturity=5 / 20, strike=1.02)
+            deriv.simulate(n_paths=6)
+            surface = VolSurface()
+            model = mk(deriv)
+            feats = [ModuleOutput(surface, ["log_moneyness", "time_to_maturity"]) if f == "volatility" else f for f in model.inputs()]
+            if stepwise and "prev_hedge" not in model.inputs():
+                feats = feats + ["prev_hedge"]
+
+                class WithPrev(torch.nn.Module):        # the same model; the extra prev_hedge column forces the step-by-step evaluation
+                    def __init__(self, inner):
+                        super().__init__()
+                        self.inner = inner
+
+                    def forward(self, x):
+                        return self.inner(x[..., :-1])
+                model = WithPrev(model)
+            hedger = Hedger(model, feats, criterion=EntropicRiskMeasure(1.5))
+
+            def loss_fn() -> torch.Tensor:
+                return hedger.criterion(hedger.compute_portfolio(deriv), deriv.payoff())
+            _fd_compare(ctx, f"fd:trainable-volatility:{mk.__name__}", f"{mk.__name__}({dcls.__name__}) fed by a trainable volatility feature, {'step by step' if stepwise else 'all steps at once'}",
+                        loss_fn, list(surface.parameters()), {"model": mk.__name__, "derivative": dcls.__name__, "stepwise": stepwise})
 
     torch.manual_seed(ctx.seed + 33)
     for n_paths in (1, 2, 7):
